@@ -538,6 +538,15 @@ func (ma *ModAnalysis) callee(callee *ssa.Function, mi *modInfo) {
 		}
 		return
 	}
+	if c, ok := ex.cs.Funcs[key]; ok {
+		// call-event ghosts of a contract without modifies clause
+		for _, evn := range append(append([]Clause{}, c.Events...), c.REvents...) {
+			if s, ok := ex.spec.ghosts[evn.Label]; ok {
+				ex.regSV(evn.Label, s)
+				mi.vars[evn.Label] = true
+			}
+		}
+	}
 	sub := ma.info(callee)
 	if sub.rec {
 		mi.rec = true
@@ -639,7 +648,7 @@ func (ex *Exec) staticModVars(c *Contract, callee *ssa.Function, sig *types.Sign
 		}
 	}()
 	seen := map[string]bool{}
-	for _, evn := range c.Events {
+	for _, evn := range append(append([]Clause{}, c.Events...), c.REvents...) {
 		if s, ok := ex.spec.ghosts[evn.Label]; ok {
 			ex.regSV(evn.Label, s)
 			seen[evn.Label] = true
@@ -888,7 +897,7 @@ func (ma *ModAnalysis) LoopObjMods(fr *Frame, li *loopInfo, vars []string) map[s
 				for _, v := range sortedKeys(sub.allocVars) {
 					get(v).whole = true
 				}
-				for _, evn := range c.Events {
+				for _, evn := range append(append([]Clause{}, c.Events...), c.REvents...) {
 					get(evn.Label).whole = true
 				}
 			}()
